@@ -259,6 +259,32 @@ SEEDS = {
         needs="an SLM mask ending inside (t_1/2, t_1]: ignored for the whole first step",
         detected_by={"C23": "query_times_steps2: emu-mps: step matrix is masked while the step ends before the SLM end", "C02": "drive_update_rydberg_n2_steps2_reorder_slm: MPO during step 0"},
     ),
+    "C05b": dict(
+        property="C05",
+        change="last_factor of both MPO builders tests `middle_site == 1` instead of `num_sites == 2`: for exactly 3 atoms the last factor multiplies the coupling channel by J01 again",
+        needs="exactly N = 3 atoms with atom 2 interacting and J01 != 1 (0.5 for XY)",
+        detected_by={"C05": "mpo_rydberg_n3_d2_noise: contract(MPO) = dense rydberg H (n=3, d=2)"},
+    ),
+    "C14b": dict(
+        property="C14",
+        change="_unique_observable_times uses the config default times only when NO observable defines its own times",
+        needs="a configuration mixing an observable with own times and one relying on default_evaluation_times that are off the dt grid",
+        detected_by={"C14": "requested_times_on_grid_evals2_mixed (added): evaluation time e1 is a grid time", "C21": "grid_evals2_idx1_mixed (added)"},
+        strengthened="MISSED at first by both: the grid harness only ever had one observable. Added the mixed configuration (own + default) to C21's grid harness and made the grid cases part of C14 (the requested times being on the grid is half of C14's statement)",
+    ),
+    "C18b": dict(
+        property="C18",
+        change="NoisyMPSBackendImpl.sweep_complete brackets a new root search from the step start on the grid instead of the time the sweep started from",
+        needs="two jumps inside one time step",
+        detected_by={"C18": "step_idle_inner: the new search brackets [previous time, t_{k+1}] with the two gaps"},
+    ),
+    "C24b": dict(
+        property="C24",
+        change="eff_noise: zero rates are filtered out of the rate list only, then zipped with the unfiltered operator list",
+        needs="eff_noise with >= 2 operators and a zero rate before a non-zero one",
+        detected_by={"C24": "eff_noise_ising_d2_ops2: dissipator of the emulator's jump operators = Pulser's"},
+        strengthened="first detection was through a clause that demanded more than the property (the NUMBER of jump operators: a zero-rate operator may legitimately be dropped). That clause was removed and a two-operator eff_noise case added to the quick tier, so the dissipator comparison fails instead",
+    ),
     "C25b": dict(
         property="C25",
         change="fill_results normalises lazily, and the dark-atom branch builds the extended state from the live, un-normalised factors",
